@@ -519,6 +519,27 @@ class PairObs(tuple):
         o.d = a
         return o
 
+    def __reduce__(self):
+        return (PairObs, (self.a, self.b))
+
+
+class TObs(S.Obs):
+    """S.Obs that survives pickling"""
+    def __reduce__(self):
+        return (TObs, (self.d,))
+
+
+_RUNS = [0]
+
+
+def settle_heap():
+    """run_program ends with gc.collect(); the observations a check keeps make that full collection slower and slower
+    (quadratic over a thorough run).  Every 100 runs move what is alive to the permanent generation."""
+    import gc
+    _RUNS[0] += 1
+    if _RUNS[0] % 100 == 0:
+        gc.freeze()
+
 
 def _y(t=0.0):
     return ([], ("yield", t))
